@@ -65,4 +65,12 @@ CHECKS = {
           'TypeHint laws (memoisation, eq => equal hash and mutual subhints, len/iter/getitem/contains coherence) are asserted.',
   'note': _GRAMMAR_NOTE + ' Completeness of is_subhint is not asserted; undecidable answers (documented exception) are counted as unanswered; Hashable is excluded (issubclass(Collection, Hashable) is True in Python itself).',
  },
+ 'C20': {
+  'technique': 'property-based testing: round trip is_bearable(obj, infer_hint(obj)) over a recursive object generator, all draws',
+  'text': 'Objects are generated recursively (scalars, enums, builtin and collections containers of any nesting and item mix, dict views, ranges, '
+          'user-defined Sequence/Mapping/Set by ABC and by dunder methods, callables, classes, iterators, self-referential and mutually recursive containers); '
+          'the hint inferred under the default configuration must accept the object for every draw 0..len-1 and boundary draws; directly recursive containers must '
+          'terminate with a recursion warning. Failures are attributed to a minimal failing sub-object.',
+  'note': 'Bounded exploration (depth <= 3 quick / 4 thorough, <= 4 items per level). Third-party containers (NumPy etc.) are not generated.',
+ },
 }
